@@ -92,7 +92,7 @@ class PathParameter(StringParameter):
         self.must_exist = must_exist
 
     def clean(self, value, program=None, lineno=None):
-        super(PathParameter, self).clean(value, program, lineno)
+        value = super(PathParameter, self).clean(value, program, lineno)
 
         if not os.path.isabs(value):
             if program.working_dir is None:
